@@ -34,6 +34,16 @@ def seeded_table():
             f"{c} are caught by the registered quick check now. {per_round}. Every miss led to a strengthening of the check concerned "
             f"(column note) and is caught since.\n\n" + "\n".join(rows))
 
+def benign_table():
+    rows = ["| benign change | property | what was changed (the property still holds) | quiet at first evaluation | note |", "|---|---|---|---|---|"]
+    n = q = 0
+    for p in sorted(glob.glob(os.path.join(HERE, "seeded_benign", "*", "meta.json"))):
+        m = json.load(open(p)); name = os.path.basename(os.path.dirname(p))
+        n += 1; q += bool(m.get("quick_check_quiet_at_first_evaluation"))
+        cut = lambda s, k: (s or "").replace("|", "/").replace("\n", " ")[:k]
+        rows.append(f"| {name} | {m['property']} | {cut(m.get('summary'), 240)} | {'yes' if m.get('quick_check_quiet_at_first_evaluation') else 'NO (false alarm, corrected)'} | {cut(m.get('note'), 200)} |")
+    return f"{n} behaviour-changing, property-preserving changes kept; {q} left the registered quick check quiet at first evaluation, all do now.\n\n" + "\n".join(rows)
+
 def mutants_table():
     rows = ["| property | mutant patches under mutants/<id>/ |", "|---|---|"]
     for d in sorted(glob.glob(os.path.join(HERE, "mutants", "C*"))):
@@ -44,7 +54,7 @@ def mutants_table():
 def main():
     p = os.path.join(HERE, "DESIGN.md")
     s = open(p).read()
-    for key, fn in (("findings", findings_table), ("seeded", seeded_table), ("mutants", mutants_table)):
+    for key, fn in (("findings", findings_table), ("seeded", seeded_table), ("mutants", mutants_table), ("benign", benign_table)):
         b, e = f"<!-- BEGIN:{key} -->", f"<!-- END:{key} -->"
         if b in s and e in s:
             s = s[:s.index(b) + len(b)] + "\n" + fn() + "\n" + s[s.index(e):]
